@@ -75,8 +75,18 @@ def _particles(rng, shape, box, dtype, coord, nthread, npartition, nrandom, offs
             xs.append(float(ft((k + 0.5) * h)))
         if rng.random() < 0.15:
             xs.append(float(ft(k * h)))
-    if len(xs) > 160:
-        xs = rng.sample(xs, 160)
+    # half-cell ties *after* the offset is applied: (x + off) * n / box == k + 1/2 (and its float neighbours)
+    off = 0.0 if offset == '0' else 0.5 * h
+    for np_c in _candidates(n1d, nthread, npartition):
+        for s_ in range(np_c + 1):
+            kb = int(round(s_ * n1d / np_c))
+            for k in (kb - 1, kb, kb + 1):
+                t = ft((k + 0.5) * h - off)
+                for v in (t, np.nextafter(t, ft(0)), np.nextafter(t, ft(2 * box))):
+                    if 0 <= v < ft(box) and rng.random() < 0.5:
+                        xs.append(float(v))
+    if len(xs) > 200:
+        xs = rng.sample(xs, 200)
     pos = []
     others = [0.0, float(np.nextafter(ft(box), ft(0)))]
     for x in xs:
@@ -142,6 +152,16 @@ def _sweep_case(rng, shape, nthread, npart, policy, coord=0):
     xs = []
     for np_c in _candidates(n1d, nthread, npart) + ([] if npart else _candidates(shape[0], nthread, None)):
         xs += _edge_values(box, np_c, 'f4')
+    h = box / n1d
+    off = 0.0 if (n1d + nthread) % 2 else 0.5 * h
+    for np_c in _candidates(n1d, nthread, npart):
+        for s_ in range(np_c + 1):
+            kb = int(round(s_ * n1d / np_c))
+            for k in (kb - 1, kb):
+                t = np.float32((k + 0.5) * h - off)
+                for v in (t, np.nextafter(t, np.float32(0)), np.nextafter(t, np.float32(2))):
+                    if 0 <= v < np.float32(box):
+                        xs.append(float(v))
     xs = sorted(set(xs))
     if len(xs) > 140:
         xs = xs[::len(xs) // 140 + 1]
@@ -200,9 +220,14 @@ def run(case):
         violation(out, 'oob', (ev['region'] or 'tsc').split('#')[0], ev)
     elif exc is not None:
         violation(out, 'raises:' + type(exc).__name__, 'tsc_parallel', repr(exc)[:300])
-    conflicts, nbenign = SIM.conflicts(limit=4)
-    if nbenign:
-        bump(out['probes'], 'zero-weight-shared-cell', nbenign)
+    # C07 says concurrently processed stripes must not update the same grid cell at all: in the two TSC
+    # passes a value-preserving update (`+= 0` on an exact half-cell tie) counts as well -- it is the same
+    # geometric overlap, one float rounding away from a real deposit.  Elsewhere it stays a probe.
+    allc, nbenign = SIM.conflicts(include_benign=True, limit=8)
+    conflicts = [c for c in allc if not c['benign'] or '_tsc_parallel' in c['region']][:4]
+    nprobe = sum(1 for c in allc if c['benign'] and '_tsc_parallel' not in c['region'])
+    if nprobe:
+        bump(out['probes'], 'value-preserving-shared-element-outside-tsc', nprobe)
     schedule = H.schedule_rle()
     active = max((sum(1 for c in (R.assign if isinstance(R.assign, list) and R.assign and isinstance(R.assign[0], list) else [])
                       if c) for R in SIM.regions if 'tsc_parallel' in R.name), default=0)
@@ -214,7 +239,8 @@ def run(case):
         site = c['region'].split('#')[0]
         violation(out, 'conflict', site,
                   {'cell': c['where'], 'threads': c['threads'], 'config(n1d,nthread,npartition)': cfg,
-                   'note': 'two concurrently processed stripes update the same element'})
+                   'note': 'two concurrently processed stripes update the same element' +
+                           (' (with zero weight: exact half-cell tie)' if c['benign'] else '')})
         break
     tol = 8 * float(np.finfo(np.float32).eps) * max(1.0, sumw)
     if res is not None:
